@@ -108,6 +108,6 @@ def make_scratch(repo, verif, scratch):
     p = os.path.join(src, "Cargo.toml")
     s = open(p).read()
     if '"cfg(kani)",' in s:
-        s = s.replace('"cfg(kani)",', '"cfg(kani)",\n    "cfg(verif_real_map)",', 1)
+        s = s.replace('"cfg(kani)",', '"cfg(kani)",\n    "cfg(verif_real_map)",\n    "cfg(verif_native)",', 1)
     open(p, "w").write(s)
     return src
